@@ -391,20 +391,28 @@ def run_e2e(ctx, impl, model, bump, viol, mism, nontriv, samples, only=None):
     n = 60 if T else 10
     while len(cases) < n: cases.append(gen_e2e(rng, T))
     if only is not None: cases = list(only)
-    path = os.path.join(vlib.BUILD, "C08", "e2e_%d.txt" % os.getpid())
-    open(path, "w").write("\n".join(cases) + "\n")
-    rc, out, err = vlib.sh2([impl, path, "e2e"], timeout=3000)
-    os.remove(path)
-    if rc != 0:
-        raise RuntimeError("e2e harness failed rc=%s\n%s" % (rc, err[-2000:]))
-    blocks, cur = [], []
-    for ln in out.splitlines():
-        if ln.startswith("end "):
-            blocks.append((cur, ln[4:])); cur = []
-        else:
-            cur.append(ln)
-    if len(blocks) != len(cases):
-        raise RuntimeError("e2e harness returned %d blocks for %d cases" % (len(blocks), len(cases)))
+    # bounded harness processes: batches of 8 scenarios, 8 minutes each at most
+    blocks, timeouts, kept = [], 0, []
+    for b0 in range(0, len(cases), 8):
+        batch = cases[b0:b0 + 8]
+        path = os.path.join(vlib.BUILD, "C08", "e2e_%d.txt" % os.getpid())
+        open(path, "w").write("\n".join(batch) + "\n")
+        rc, out, err = vlib.sh2([impl, path, "e2e"], timeout=480)
+        os.remove(path)
+        if rc == 124:
+            timeouts += len(batch); log("e2e batch timed out (machine load?) - %d scenarios skipped" % len(batch)); continue
+        if rc != 0:
+            raise RuntimeError("e2e harness failed rc=%s\n%s" % (rc, err[-2000:]))
+        bl, cur = [], []
+        for ln in out.splitlines():
+            if ln.startswith("end "):
+                bl.append((cur, ln[4:])); cur = []
+            else:
+                cur.append(ln)
+        if len(bl) != len(batch):
+            raise RuntimeError("e2e harness returned %d blocks for %d cases" % (len(bl), len(batch)))
+        blocks += bl; kept += batch
+    cases = kept
     ev = 0
     npacks_total, nrepair, ndumps, tiny = 0, 0, 0, {}
     cache = {}            # (pack id, hint, size) -> model answer
@@ -506,7 +514,7 @@ def run_e2e(ctx, impl, model, bump, viol, mism, nontriv, samples, only=None):
     if len(samples) < 6 and todo:
         k, l = todo[0]
         samples.append({"mode": "e2e-fromfile", "case": l if len(l) < 1500 else l[:1500] + "...", "model": cache[k][:600]})
-    return {"evaluations": ev, "e2e_cases": len(cases), "e2e_dumps": ndumps, "e2e_packs_parsed_by_extracted_from_file": len([1 for (k, _) in todo if k[1] == -1]),
+    return {"evaluations": ev, "e2e_cases": len(cases), "e2e_scenarios_skipped_by_timeout": timeouts, "e2e_dumps": ndumps, "e2e_packs_parsed_by_extracted_from_file": len([1 for (k, _) in todo if k[1] == -1]),
             "e2e_pack_observations": npacks_total, "e2e_repair_index_runs": nrepair, "e2e_index_vs_header_comparisons": len([c for c in checks if c[0] == "index"]),
             "e2e_impl_vs_model_from_file": len([c for c in checks if c[0] == "impl"]),
             "e2e_tiny_pack_repair_index": tiny,
